@@ -1,0 +1,27 @@
+// Copyright 2024 RunReveal Inc.
+// SPDX-License-Identifier: Apache-2.0
+
+//go:build verif
+
+package pql
+
+import "sync"
+
+// VerifHook, if set, is called at every linearization point of Compile
+// with the name of the point. It exists only in builds with the "verif" tag.
+// It must be set before any goroutine calls Compile.
+var VerifHook func(point string)
+
+func verifPoint(point string) {
+	if h := VerifHook; h != nil {
+		h(point)
+	}
+}
+
+// VerifResetFunctionTable puts the lazily initialized function table
+// back into its never-used state, so that one process can observe
+// the first use more than once. It must not run concurrently with Compile.
+func VerifResetFunctionTable() {
+	knownFunctions.init = sync.Once{}
+	knownFunctions.m = nil
+}
